@@ -5,6 +5,7 @@ from props.common import *
 from props import dtfam
 
 ID = 'C08'
+GRAD_MODES = True
 PROPS_MODULE = 'Props.C08'
 THEOREMS = ['C08_nonneg', 'C08_nonneg_colour', 'C08_ext8_rows', 'C08_ext8_cols', 'C08_ext8_size2_refuted', 'C08_j1_layout']
 VO = ['theories/Props/C08.vo', 'theories/Run/RunScat.vo']
